@@ -10,8 +10,8 @@ TABLE = []
 
 
 class IdealHash:
-    def __init__(self, *a, **kw):
-        self.chunks = []
+    def __init__(self, data=b"", **kw):
+        self.chunks = [data] if data else []
 
     def update(self, b):
         self.chunks.append(b)
@@ -24,6 +24,9 @@ class IdealHash:
         tok = b"\xfe" + (len(TABLE) + 1).to_bytes(15, "big")
         TABLE.append((s, tok))
         return tok
+
+    def hexdigest(self):
+        return self.digest().hex()
 
 
 def install():
@@ -93,3 +96,50 @@ def permuted(elems, perm):
         out.append(elems.pop(perm % k))
         perm //= k
     return out
+
+
+class SymStat:
+    def __init__(self, mtime_ns, ctime_ns, size, ino):
+        self.st_mtime_ns, self.st_ctime_ns, self.st_size, self.st_ino = mtime_ns, ctime_ns, size, ino
+        self.st_mtime, self.st_ctime = mtime_ns / 1e9, ctime_ns / 1e9
+        self.st_atime = self.st_mtime
+        self.st_mode = 0o100644
+
+
+class SymPath:
+    """path-like whose lstat()/stat() are supplied by the harness (symbolic)"""
+
+    def __init__(self, name, state):
+        self.name, self.state = name, state
+
+    def lstat(self):
+        return SymStat(*self.state["stat"])
+
+    stat = lstat
+
+    def __repr__(self):
+        return "SymPath(%r)" % (self.name,)
+
+    def __lt__(self, other):
+        return self.name < other.name
+
+    def __fspath__(self):
+        return self.name
+
+
+class SymFile:
+    """stand-in for a fileformats FileSet, serialised by the *real* bytes_repr_fileset: exposes
+    fspaths (with symbolic stat) and byte_chunks() (the current symbolic content)"""
+
+    def __init__(self, name, state):
+        self.state = state
+        self.fspaths = [SymPath(name, state)]
+
+    def byte_chunks(self):
+        yield (self.fspaths[0].name, iter([self.state["content"]]))
+
+
+def register_symfile():
+    import pydra.utils.hash as H
+    if SymFile not in H.bytes_repr.registry:
+        H.register_serializer(SymFile)(H.bytes_repr_fileset)
